@@ -149,6 +149,7 @@ pub fn simple_beh_ids(reg: &str, occ: &[&str], ids: &[i64], nitems: usize, ngeck
 		table,
 		counts: Default::default(),
 		junk: 0,
+		tail_unk: [0, 0],
 	}
 }
 
